@@ -145,4 +145,63 @@ def enumAll (bytes : Bytes) (cfg : Config) : Nat → Nat → Out (List Found)
 /-- address field of a found string: `self.base.wrapping_add(start as u32)` -/
 def address (base : Nat) (f : Found) : Nat := wadd32 base f.start
 
+/-! ### `Enumerator.offset` is a `u32`
+
+Everything above keeps `self.offset` as a natural number.  The field is a `u32`: the three `return Some(..)` paths
+store `(i + 1) as u32` / `i as u32` (strings.rs:95,101,110), the next call starts at `self.offset as usize`, and the
+address is computed from `start as u32`.  `nextT` is the transition AS WRITTEN, with the casts; `Thm/C20.lean`
+(`C20_offset_fits`) shows that for buffers below 4 GiB — the model's global bound, and every buffer the line protocol can
+carry — it is the transition without them, and (`C20_offset_wraps_at_4GiB`) what happens at 4 GiB. -/
+
+/-- `x as u32` -/
+def trunc32 (x : Nat) : Nat := x % 4294967296
+
+-- src: strings.rs:Enumerator::next  (with `self.offset = (i + 1) as u32` / `i as u32`)
+def nextT (bytes : Bytes) (cfg : Config) (off : Nat) : Option (Found × Nat) :=
+  match next bytes cfg off with
+  | none => none
+  | some (f, off') => some (f, trunc32 off')
+
+/-- `self.base.wrapping_add(start as u32)` with the cast spelled out -/
+def addressT (base : Nat) (f : Found) : Nat := wadd32 base (trunc32 f.start)
+
+/-! The enumerator object over an ARBITRARY transition `nx : offset ↦ (answer, new offset)` — `next` or `nextT` —: the
+hand-written `next` and the provided methods over it.  A transition that does not move forward (as `nextT` on a 4 GiB
+buffer) makes the loops run forever, so they carry fuel (`diverge` when it runs out). -/
+
+def stepW (nx : Nat → Option (Found × Nat)) (off : Nat) : Option Found × Nat :=
+  match nx off with
+  | none => (none, off)
+  | some (f, off') => (some f, off')
+
+-- src: core::iter::Iterator::nth
+def nthW (nx : Nat → Option (Found × Nat)) : Nat → Nat → Option Found × Nat
+  | off, 0 => stepW nx off
+  | off, k + 1 =>
+    match nx off with
+    | none => (none, off)
+    | some (_, off') => nthW nx off' k
+
+-- src: core::iter::Iterator::count
+def countW (nx : Nat → Option (Found × Nat)) : Nat → Nat → Nat → Out Nat
+  | 0, _, _ => .diverge
+  | fuel + 1, off, n =>
+    match nx off with
+    | none => .ok n
+    | some (_, off') => countW nx fuel off' (n + 1)
+
+/-- `collect()` -/
+def itemsW (nx : Nat → Option (Found × Nat)) : Nat → Nat → Out (List Found)
+  | 0, _ => .diverge
+  | fuel + 1, off =>
+    match nx off with
+    | none => .ok []
+    | some (f, off') =>
+      match itemsW nx fuel off' with
+      | .ok fs => .ok (f :: fs)
+      | o => o
+
+/-- `enumerate(..).collect()` with the `u32` offset field -/
+def enumAllT (bytes : Bytes) (cfg : Config) (fuel off : Nat) : Out (List Found) := itemsW (nextT bytes cfg) fuel off
+
 end Pelite.Strings
